@@ -8,7 +8,7 @@ from __future__ import annotations
 
 import hashlib
 import json
-import os
+import os, re
 import shutil
 import subprocess
 import sys
@@ -206,7 +206,11 @@ def check(prop, tier, seed):
     extracted = {f["function"].split("::")[1] for f in functions}
     for fn, labels in (baseline.get("labels") or {}).items():
         if fn in extracted:
-            missing = set(labels) - per_func.get(fn, set())
+            # (a conjunctive goal is split into `.k` parts only when it stays a conjunction after simplification: compare without the part index)
+            def base(lab):
+                return re.sub(r"(\.\d+)+$", "", lab)
+            have = {base(x) for x in per_func.get(fn, set())}
+            missing = {m for m in set(labels) if base(m) not in have}
             # labels that disappear because a path became infeasible are legitimate only for path-specific kinds
             missing = {m for m in missing if "/post:" in m or "/inv-" in m or "/lemma" in m}
             if missing:
@@ -337,7 +341,8 @@ def check(prop, tier, seed):
     if broken:
         for b in broken:
             sys.stderr.write("CHECK-BROKEN %s: %s\n" % (prop, b))
-        return 3, ev
+        # a violation that was found and printed stays a violation (exit 1) even if the run also noticed something wrong with itself
+        return (1 if violations else 3), ev
     return (1 if violations else 0), ev
 
 
